@@ -2,7 +2,7 @@
    (slot table consistent, forest well shaped) to a good state, and never lowers a slot generation. *)
 From Coq Require Import List NArith ZArith Bool Lia Permutation Arith.
 From XotV Require Import Model.Base Model.Zipper Model.Access Model.Store Model.Manip Spec.DocOrder Spec.Paths Spec.Shape
-                         Proofs.PermTac Proofs.StoreProofs Proofs.ForestFacts Proofs.ShapeProofs Proofs.InvProofs Proofs.InvSteps.
+                         Proofs.PermTac Proofs.StoreProofs Proofs.ForestFacts Proofs.ShapeProofs Proofs.KeysProofs Proofs.InvProofs Proofs.InvSteps Proofs.NodeMapProofs.
 Import ListNotations.
 Open Scope N_scope.
 
@@ -11,20 +11,22 @@ Open Scope N_scope.
 Lemma Ext_move st child ins :
   Good st ->
   (forall f' v k, fcut child (store st) = Some (f', (child, v, k)) -> NoDup (ids f') -> shape_store f' = true ->
-     kids_ok v k = true ->
+     kids_ok v k = true -> keys f' = true -> keys_tree k = true ->
      Permutation (nodes (ins (FCons child v k FNil) f')) ((child, v) :: nodes k ++ nodes f')
-     /\ shape_store (ins (FCons child v k FNil) f') = true) ->
+     /\ shape_store (ins (FCons child v k FNil) f') = true
+     /\ keys (ins (FCons child v k FNil) f') = true) ->
   Ext st (move st child ins).
 Proof.
   intros G H. unfold move. destruct (fcut child (store st)) as [[f' [[i v] k]]|] eqn:E; [|apply Ext_refl; exact G].
   pose proof (fcut_ids _ _ _ _ _ _ E) as Hp. pose proof (fcut_slot _ _ _ _ _ _ E) as ->.
-  destruct (shape_fcut _ _ _ _ _ _ _ _ (Nat.le_0_l _) (proj2 G) E) as [Hf Hk].
+  destruct (shape_fcut _ _ _ _ _ _ _ _ (Nat.le_0_l _) (Good_shape _ G) E) as [Hf Hk].
+  destruct (keys_fcut _ _ _ _ _ _ (Good_keys _ G) E) as (Kf & Kt & _).
   assert (NoDup (ids f')) as Hnd.
   { pose proof (Good_nodup _ G) as Hn. eapply Permutation_NoDup in Hn; [|exact Hp].
     inversion Hn; subst. apply NoDup_app_inv in H3. tauto. }
-  destruct (H f' v k eq_refl Hnd Hf Hk) as [H1 H2]. cbn [single].
+  destruct (H f' v k eq_refl Hnd Hf Hk Kf Kt) as (H1 & H2 & H3). cbn [single].
   apply fcut_spec in E as [_ E].
-  apply Ext_with_store; [exact G| |exact H2|apply vsub_perm; rewrite H1; exact E].
+  apply Ext_with_store; [exact G| |exact H2|exact H3|apply vsub_perm; rewrite H1; exact E].
   rewrite !ids_nodes. apply Permutation_map. rewrite H1. apply Permutation_sym. exact E.
 Qed.
 
@@ -137,23 +139,27 @@ Lemma Ext_move_child st0 st parent child (g : forest -> forest -> forest) :
   (forall t k, Permutation (nodes (g t k)) (nodes k ++ nodes t)) ->
   (forall it vt kt vp k, child_ok vt = true -> kids_ok vt kt = true -> (is_elem vp = true \/ is_doc vp = true) ->
      kids_ok vp k = true -> kids_ok vp (g (FCons it vt kt FNil) k) = true) ->
+  (forall it vt kt k, is_normal vt = true -> keys_tree kt = true -> keys_tree k = true ->
+     keys_tree (g (FCons it vt kt FNil) k) = true) ->
   Ext st (move st child (fun t f => fmap_kids parent (g t) f)).
 Proof.
-  intros G0 G Hl Hsc Hpin Hgp Hgs.
+  intros G0 G Hl Hsc Hpin Hgp Hgs Hgk.
   destruct (structure_check_facts _ _ _ Hsc) as (Hanc & (vp0 & Hvp0 & Hcont) & (vc0 & Hvc0 & Hcok)).
-  apply Ext_move; [exact G|]. intros f' v k Hcut Hnd Hsh Hk.
+  apply Ext_move; [exact G|]. intros f' v k Hcut Hnd Hsh Hk Kf Kt.
   assert (In parent (ids f')) as Hpf.
   { eapply fcut_keeps; [exact Hcut|exact Hpin|]. intros Hin. apply (proj2 Hl) in Hin.
     eapply not_ancestor_not_below; [apply Good_nodup; exact G0|eapply val_cur; exact Hvp0|exact Hanc|exact Hin]. }
   assert (In (child, v) (nodes (store st))) as Hcv by (eapply find_in_nodes; eapply fcut_find; exact Hcut).
   assert (child_ok v = true) as Hcv_ok.
   { eapply same_class_child_ok; [exact (later_value st0 st child vc0 v G0 Hl Hvc0 Hcv)|exact Hcok]. }
-  split.
+  split; [|split].
   - rewrite (fmap_kids_spec parent (g (FCons child v k FNil)) (FCons child v k FNil) f' Hnd Hpf) by (intros; apply Hgp).
     cbn. rewrite app_nil_r. perm.
   - apply shape_fmap_kids; [exact Hsh|]. intros vp kp Hin Hkp. apply Hgs; auto.
     eapply same_class_container; [|exact Hcont]. eapply later_value; [exact G0|exact Hl|exact Hvp0|].
     eapply fcut_nodes_incl; [exact Hcut|exact Hin].
+  - apply keys_fmap_kids; [exact Kf|]. intros vp kp _ Hkp. apply Hgk; auto.
+    unfold child_ok in Hcv_ok. apply andb_true_iff in Hcv_ok. tauto.
 Qed.
 
 Lemma sibling_check_facts st r n : sibling_check st r n = true ->
@@ -171,22 +177,24 @@ Lemma Ext_move_sibling st0 st ref new (ins : forest -> forest -> forest) :
   (forall t f, NoDup (ids f) -> In ref (ids f) -> Permutation (nodes (ins t f)) (nodes f ++ nodes t)) ->
   (forall it vt kt f, shape_store f = true -> (forall v, In (ref, v) (nodes f) -> is_normal v = true) ->
      child_ok vt = true -> kids_ok vt kt = true -> shape_store (ins (FCons it vt kt FNil) f) = true) ->
+  (forall it vt kt f, keys f = true -> is_normal vt = true -> keys_tree kt = true -> keys (ins (FCons it vt kt FNil) f) = true) ->
   Ext st (move st new ins).
 Proof.
-  intros G0 G Hl Hsc Hrin Hperm Hshape.
+  intros G0 G Hl Hsc Hrin Hperm Hshape Hkeys.
   destruct (sibling_check_facts _ _ _ Hsc) as (Hne & (vr0 & Hvr0 & Hnr) & (P & HP & Hst)).
   destruct (structure_check_facts _ _ _ Hst) as (Hanc & (vp0 & Hvp0 & _) & (vc0 & Hvc0 & Hcok)).
-  apply Ext_move; [exact G|]. intros f' v k Hcut Hnd Hsh Hk.
+  apply Ext_move; [exact G|]. intros f' v k Hcut Hnd Hsh Hk Kf Kt.
   assert (In ref (ids f')) as Hrf.
   { eapply fcut_keeps; [exact Hcut|exact Hrin|]. intros Hin. apply (proj2 Hl) in Hin.
     eapply sibling_not_below; [apply Good_nodup; exact G0|exact HP|eapply val_cur; exact Hvp0|exact Hanc|exact Hne|exact Hin]. }
   assert (In (new, v) (nodes (store st))) as Hcv by (eapply find_in_nodes; eapply fcut_find; exact Hcut).
   assert (child_ok v = true) as Hcv_ok.
   { eapply same_class_child_ok; [exact (later_value st0 st new vc0 v G0 Hl Hvc0 Hcv)|exact Hcok]. }
-  split.
+  split; [|split].
   - rewrite (Hperm _ _ Hnd Hrf). cbn. rewrite app_nil_r. perm.
   - apply Hshape; auto. intros w Hw. eapply same_class_normal; [|exact Hnr].
     eapply later_value; [exact G0|exact Hl|exact Hvr0|]. eapply fcut_nodes_incl; [exact Hcut|exact Hw].
+  - apply Hkeys; auto. unfold child_ok in Hcv_ok. apply andb_true_iff in Hcv_ok. tauto.
 Qed.
 
 (* ---------- what survives the consolidation at the old position ---------- *)
@@ -245,6 +253,7 @@ Proof.
   - apply Hk; [eapply val_in_ids; exact Hvp0|]. right. right. eapply container_not_text; eauto.
   - intros t k. rewrite nodes_fapp. reflexivity.
   - intros. apply kids_ok_append; auto.
+  - intros. apply keys_tree_fapp_single; auto.
 Qed.
 
 Lemma Ext_m_prepend st p c : Good st -> Ext st (fst (m_prepend st p c)).
@@ -266,6 +275,7 @@ Proof.
   - apply Hk; [eapply val_in_ids; exact Hvp0|]. right. right. eapply container_not_text; eauto.
   - intros t k. apply nodes_insert_first_normal.
   - intros. apply kids_ok_prepend; auto.
+  - intros. apply keys_tree_insert_first_normal; auto.
 Qed.
 
 (* ---------- insert_after / insert_before ---------- *)
@@ -304,6 +314,7 @@ Proof.
     destruct m0; [right; left|left; reflexivity]. cbn in Eearly. apply opt_eqb_false_ne. exact Eearly.
   - intros. apply finsert_after_spec; auto.
   - intros. apply shape_store_insert_after; auto.
+  - intros. apply keys_finsert_after; auto.
 Qed.
 
 Lemma opt_eqb_false_ne' a x : opt_eqb a (Some x) = false -> a <> Some x.
@@ -328,6 +339,7 @@ Proof.
   - apply Hk; [eapply val_in_ids; exact Hvr0|]. right. left. apply opt_eqb_false_ne. exact Enoop.
   - intros. apply finsert_before_spec; auto.
   - intros. apply shape_store_insert_before; auto.
+  - intros. apply keys_finsert_before; auto.
 Qed.
 
 (* ---------- detach / remove / replace / wrap ---------- *)
@@ -433,19 +445,45 @@ Proof.
   apply in_map. exact Hin.
 Qed.
 
+Lemma key_of_is v : key_of v = key_of_node v.
+Proof. destruct v; reflexivity. Qed.
+
 Lemma map_get_node_facts st k e key n :
-  Good st -> map_get_node st k e key = Some n -> exists v, val st n = Some v /\ value_category v = cat_of k.
+  Good st -> map_get_node st k e key = Some n -> exists v, val st n = Some v /\ value_category v = cat_of k /\ key_of_node v = key.
 Proof.
   intros G. unfold map_get_node. destruct (cur st e) as [z|] eqn:Hc; [|discriminate].
   destruct (List.find _ (map_nodes k z)) as [c|] eqn:Ef; [|discriminate]. cbn. intros H. inversion H; subst.
-  apply find_some in Ef as [Hin _]. exists (z_val c).
+  apply find_some in Ef as [Hin Hkey]. apply N.eqb_eq in Hkey. rewrite key_of_is in Hkey. exists (z_val c).
   assert (In c (arena_children z) /\ value_category (z_val c) = cat_of k) as [Ha Hcat].
   { destruct k; cbn [map_nodes cat_of] in *.
     - unfold attribute_nodes in Hin. apply take_while_in in Hin as [Hp Hin]. apply skip_while_in in Hin.
       split; [exact Hin|]. unfold is_cat, zcat in Hp. destruct (value_category (z_val c)); try discriminate; reflexivity.
     - unfold namespace_nodes in Hin. apply take_while_in in Hin as [Hp Hin].
       split; [exact Hin|]. unfold is_cat, zcat in Hp. destruct (value_category (z_val c)); try discriminate; reflexivity. }
-  split; [|exact Hcat]. apply nodes_val; [apply Good_nodup; exact G|]. eapply (arena_child_node st e z c); eauto.
+  split; [|split; [exact Hcat|exact Hkey]]. apply nodes_val; [apply Good_nodup; exact G|]. eapply (arena_child_node st e z c); eauto.
+Qed.
+
+Lemma zs_level_vals f : forall ups b, map z_val (zs_level ups b f) = level_vals f.
+Proof. induction f as [|i v k _ r IH]; intros ups b; cbn; [reflexivity|]. rewrite IH. reflexivity. Qed.
+
+(* a key the view does not hold is not among the element's attribute (namespace) nodes at all *)
+Lemma map_get_node_none_fresh st k e key z :
+  Good st -> cur st e = Some z -> is_elem (z_val z) = true -> map_get_node st k e key = None ->
+  ~ In key (level_keys (cat_of k) (z_kids z)).
+Proof.
+  intros G Hc He. unfold map_get_node. rewrite Hc.
+  destruct (List.find _ (map_nodes k z)) as [c|] eqn:Ef; [discriminate|]. intros _ Hin.
+  pose proof (locate_find _ _ _ Hc) as Hf. pose proof (shape_find _ _ _ _ _ _ (Good_shape _ G) Hf) as Hk.
+  destruct (z_val z); try discriminate. cbn [kids_ok] in Hk. destruct (views_complete _ Hk) as [Vn Va].
+  assert (map z_val (map_nodes k z) = filter (v_is (cat_of k)) (level_vals (z_kids z))) as Hm.
+  { destruct k; cbn [map_nodes cat_of]; unfold attribute_nodes, namespace_nodes, arena_children.
+    - rewrite (map_take_while z_val (is_cat CAttribute) (v_is CAttribute)) by (intros x; reflexivity).
+      rewrite (map_skip_while z_val (is_cat CNamespace) (v_is CNamespace)) by (intros x; reflexivity).
+      rewrite zs_level_vals. exact Va.
+    - rewrite (map_take_while z_val (is_cat CNamespace) (v_is CNamespace)) by (intros x; reflexivity).
+      rewrite zs_level_vals. exact Vn. }
+  rewrite level_keys_filter, <- Hm, map_map in Hin. apply in_map_iff in Hin as (c & Hkey & Hcin).
+  pose proof (List.find_none _ _ Ef c Hcin) as Hno. cbn in Hno. rewrite key_of_is, Hkey, N.eqb_refl in Hno. discriminate.
 Qed.
 
 Lemma same_class_cat v w : value_category v = value_category w -> value_category v <> CNormal -> same_class v w.
@@ -462,16 +500,22 @@ Qed.
 Lemma nodes_map_insert_at k t kk : Permutation (nodes (map_insert_at k t kk)) (nodes kk ++ nodes t).
 Proof. destruct k; [apply nodes_insert_after_attributes|apply nodes_insert_after_namespaces]. Qed.
 
-(* attaching an abnormal leaf [node] (wherever it is) at the view's insertion point of element [e] *)
+Lemma map_insert_at_is k t kk :
+  map_insert_at k t kk = (if match k with KAttr => true | KNs => false end then insert_after_attributes else insert_after_namespaces) t kk.
+Proof. destruct k; reflexivity. Qed.
+
+(* attaching an abnormal leaf [node] (wherever it is) at the view's insertion point of element [e], whose view does not
+   hold the node's key *)
 Lemma Ext_map_attach st k e node vn :
   Good st -> is_type st e TElement = true -> val st node = Some vn -> value_category vn = cat_of k ->
+  (forall ve kk, find e (store st) = Some (ve, kk) -> ~ In (key_of_node vn) (level_keys (cat_of k) kk)) ->
   Ext st (map_attach st k e node).
 Proof.
-  intros G He Hvn Hcat. unfold map_attach.
+  intros G He Hvn Hcat Hfresh. unfold map_attach.
   apply is_type_val in He as (ve & Hve & Hte).
   assert (is_elem ve = true) as Hel by (destruct ve; try discriminate; reflexivity).
   pose proof (Good_nodup _ G) as Hnd.
-  apply Ext_move; [exact G|]. intros f' v kk Hcut Hnd' Hsh Hk.
+  apply Ext_move; [exact G|]. intros f' v kk Hcut Hnd' Hsh Hk Kf Kt.
   assert (In (node, v) (nodes (store st))) as Hnv by (eapply find_in_nodes; eapply fcut_find; exact Hcut).
   assert (v = vn) as -> by (eapply nodes_functional; [exact Hnd|exact Hnv|apply val_nodes; exact Hvn]).
   assert (kk = FNil) as ->.
@@ -480,34 +524,60 @@ Proof.
   { eapply fcut_keeps; [exact Hcut|eapply val_in_ids; exact Hve|]. unfold subtree_ids.
     rewrite (fcut_find _ _ _ _ _ _ Hcut). cbn. intros [Heq|[]]. subst.
     rewrite Hvn in Hve. inversion Hve; subst. destruct ve; destruct k; discriminate. }
-  split.
+  split; [|split].
   - rewrite (fmap_kids_spec e _ (FCons node vn FNil FNil) f' Hnd' Hef) by (intros; apply nodes_map_insert_at). cbn. apply Permutation_sym. apply Permutation_cons_append.
   - apply shape_fmap_kids; [exact Hsh|]. intros w kw Hw Hkw. apply kids_ok_map_insert; auto.
     assert (w = ve) as ->; [|exact Hel].
     eapply nodes_functional; [exact Hnd|eapply fcut_nodes_incl; [exact Hcut|exact Hw]|apply val_nodes; exact Hve].
+  - apply keys_fmap_kids_find; [exact Hnd'|exact Kf|]. intros w kx Hfx.
+    destruct (find_fcut_sub _ _ _ _ _ _ _ Hnd Hcut Hfx) as (kk0 & Hf0 & Hsub).
+    rewrite map_insert_at_is. apply keys_tree_map_insert.
+    + rewrite Hcat. destruct k; reflexivity.
+    + rewrite Hcat. intros Hin. apply (Hfresh w kk0 Hf0). eapply sub_in; [apply Hsub|exact Hin].
+    + eapply keys_find; [exact Kf|exact Hfx].
 Qed.
 
 Lemma cat_of_not_normal k : cat_of k <> CNormal.
 Proof. destruct k; discriminate. Qed.
+
+Lemma set_same_key v newv k : value_category v = cat_of k -> value_category newv = cat_of k -> key_of_node v = key_of_node newv ->
+  same_class v newv /\ same_key v newv.
+Proof.
+  intros H1 H2 H3. split; [apply same_class_cat; [congruence|rewrite H1; apply cat_of_not_normal]|]. split; [congruence|auto].
+Qed.
+
+Lemma fresh_from_get_node st k e key : Good st -> is_type st e TElement = true -> map_get_node st k e key = None ->
+  forall ve kk, find e (store st) = Some (ve, kk) -> ~ In key (level_keys (cat_of k) kk).
+Proof.
+  intros G He Hg ve kk Hf. apply is_type_val in He as (ve0 & Hve & Hte).
+  unfold val in Hve. destruct (cur st e) as [z|] eqn:Hc; [|discriminate]. inversion Hve; subst.
+  pose proof (locate_find _ _ _ Hc) as Hf'. rewrite Hf in Hf'. inversion Hf'; subst.
+  eapply map_get_node_none_fresh; eauto. destruct (z_val z); try discriminate; reflexivity.
+Qed.
 
 Lemma Ext_map_insert st k e newv :
   Good st -> is_type st e TElement = true -> value_category newv = cat_of k -> Ext st (map_insert st k e newv).
 Proof.
   intros G He Hcat. unfold map_insert.
   destruct (map_get_node st k e (key_of newv)) as [n|] eqn:Eg.
-  - destruct (map_get_node_facts _ _ _ _ _ G Eg) as (v & Hv & Hc).
+  - destruct (map_get_node_facts _ _ _ _ _ G Eg) as (v & Hv & Hc & Hkv).
     apply (Ext_set_value st n (fun _ => newv) G). intros w Hw. rewrite Hv in Hw. inversion Hw; subst.
-    apply same_class_cat; [congruence|rewrite Hc; apply cat_of_not_normal].
+    eapply set_same_key; eauto; rewrite Hkv; apply key_of_is.
   - destruct (new_node st newv) as [st1 n] eqn:En.
     destruct (Ext_new_node _ _ _ _ G En) as (X1 & Hni & Hst & _).
     eapply Ext_trans; [exact X1|].
-    apply (Ext_map_attach st1 k e n newv); [apply X1| | |exact Hcat].
+    pose proof (fresh_from_get_node _ _ _ _ G He Eg) as Hfresh.
+    apply is_type_val in He as (ve & Hve & Hte).
+    assert (e <> n) as Hen by (intros ->; apply Hni; eapply val_in_ids; exact Hve).
+    apply (Ext_map_attach st1 k e n newv); [apply X1| | |exact Hcat|].
     + (* e is still an element in st1: the new node is a different slot *)
-      apply is_type_val in He as (ve & Hve & Hte). unfold is_type.
+      unfold is_type.
       assert (val st1 e = Some ve) as ->.
       { apply nodes_val; [apply Good_nodup; apply X1|]. rewrite Hst. cbn. right. apply val_nodes. exact Hve. }
       rewrite Hte. destruct ve; try discriminate; reflexivity.
     + apply nodes_val; [apply Good_nodup; apply X1|]. rewrite Hst. cbn. left. reflexivity.
+    + intros ve' kk Hf. rewrite Hst in Hf. cbn [find] in Hf. apply N.eqb_neq in Hen. rewrite N.eqb_sym, Hen in Hf. cbn [find] in Hf.
+      rewrite <- key_of_is. eapply Hfresh. exact Hf.
 Qed.
 
 Lemma Ext_map_insert_node st k e node :
@@ -517,10 +587,10 @@ Proof.
   intros G He Hcat. unfold map_insert_node. destruct (val st node) as [nv|] eqn:Hn; [|apply Ext_refl; exact G].
   specialize (Hcat nv eq_refl).
   destruct (map_get_node st k e (key_of nv)) as [ex|] eqn:Eg; cbn [fst].
-  - destruct (map_get_node_facts _ _ _ _ _ G Eg) as (v & Hv & Hc).
+  - destruct (map_get_node_facts _ _ _ _ _ G Eg) as (v & Hv & Hc & Hkv).
     apply (Ext_set_value st ex (fun _ => nv) G). intros w Hw. rewrite Hv in Hw. inversion Hw; subst.
-    apply same_class_cat; [congruence|rewrite Hc; apply cat_of_not_normal].
-  - eapply Ext_map_attach; eauto.
+    eapply set_same_key; eauto; rewrite Hkv; apply key_of_is.
+  - eapply Ext_map_attach; eauto. intros ve kk Hf. rewrite <- key_of_is. eapply fresh_from_get_node; eauto.
 Qed.
 
 Lemma Ext_fold_remove l : forall st, Good st -> Ext st (fold_left (fun s n => fst (m_remove s n)) l st).
@@ -609,7 +679,7 @@ Lemma unwrap_strip n : forall k st v,
 Proof.
   induction k as [|a va ka _ r IH]; intros st v G Hf He; cbn [abn_prefix fold_left].
   - split; [apply Ext_refl; exact G|]. exists FNil. auto.
-  - pose proof (shape_find _ _ _ _ _ _ (proj2 G) Hf) as Hk. destruct v; try discriminate. cbn [kids_ok] in Hk.
+  - pose proof (shape_find _ _ _ _ _ _ (Good_shape _ G) Hf) as Hk. destruct v; try discriminate. cbn [kids_ok] in Hk.
     destruct (is_normal va) eqn:Hva; cbn [negb fold_left].
     + split; [apply Ext_refl; exact G|]. eexists. split; [exact Hf|]. eapply shape_first_normal_all; eauto.
     + assert (ka = FNil) as ->.
@@ -621,7 +691,7 @@ Proof.
       { eapply find_nodes_incl; [exact Hf|]. cbn. left. reflexivity. }
       assert (Ext st (remove_single_raw st a)) as X1.
       { apply Ext_remove_single_inner; [exact G|exact Hain|]. intros w kw Hw.
-        pose proof (shape_find _ _ _ _ _ _ (proj2 G) Hw) as Hkw.
+        pose proof (shape_find _ _ _ _ _ _ (Good_shape _ G) Hw) as Hkw.
         assert (w = va) as -> by (eapply nodes_functional; [exact Hnd|eapply find_in_nodes; exact Hw|exact Hav]).
         destruct va; try discriminate; destruct kw; try reflexivity; discriminate. }
       assert (find n (store (remove_single_raw st a)) = Some (VElement n0, r)) as Hf1.
@@ -787,7 +857,7 @@ Lemma is_top_map_insert_node st k e node top V :
 Proof.
   intros G T HV Hne. unfold map_insert_node. destruct (val st node) as [nv|]; [|exact T].
   destruct (map_get_node st k e (key_of nv)) as [ex|] eqn:Eg; cbn [fst].
-  - destruct (map_get_node_facts _ _ _ _ _ G Eg) as (v & Hv & Hc). destruct T as (Hr & Hn & Ht).
+  - destruct (map_get_node_facts _ _ _ _ _ G Eg) as (v & Hv & Hc & Hkv). destruct T as (Hr & Hn & Ht).
     assert (top <> ex) as Hx.
     { intros ->. apply val_nodes in Hv. rewrite (nodes_functional _ _ _ _ (Good_nodup _ G) Hn Hv) in HV.
       destruct v; destruct k; discriminate. }
@@ -871,8 +941,14 @@ Proof.
   intros Ht Hv. unfold is_type in Ht. rewrite Hv in Ht. destruct v; try discriminate. repeat split.
 Qed.
 
+Lemma normal_update v w : same_class v w -> is_normal v = true -> same_class v w /\ same_key v w.
+Proof. intros H Hn. split; [exact H|apply same_class_same_key_normal; assumption]. Qed.
+
 Lemma Ext_set_text st c s : Good st -> is_type st c TText = true -> Ext st (set_value st c (fun _ => VText s)).
-Proof. intros G Ht. apply Ext_set_value; [exact G|]. intros v Hv. eapply same_class_text; eauto. Qed.
+Proof.
+  intros G Ht. apply Ext_set_value; [exact G|]. intros v Hv. apply normal_update; [eapply same_class_text; eauto|].
+  unfold is_type in Ht. rewrite Hv in Ht. destruct v; try discriminate; reflexivity.
+Qed.
 
 Lemma Ext_m_text_content_mut st n s : Good st -> Ext st (fst (m_text_content_mut st n s)).
 Proof.
@@ -897,13 +973,13 @@ Proof.
 Qed.
 
 Lemma Ext_set_mapped st k e key newv :
-  Good st -> value_category newv = cat_of k ->
+  Good st -> value_category newv = cat_of k -> key_of_node newv = key ->
   Ext st (match map_get_node st k e key with Some n => set_value st n (fun _ => newv) | None => st end).
 Proof.
-  intros G Hc. destruct (map_get_node st k e key) as [n|] eqn:Eg; [|apply Ext_refl; exact G].
-  destruct (map_get_node_facts _ _ _ _ _ G Eg) as (v & Hv & Hcv).
+  intros G Hc Hk. destruct (map_get_node st k e key) as [n|] eqn:Eg; [|apply Ext_refl; exact G].
+  destruct (map_get_node_facts _ _ _ _ _ G Eg) as (v & Hv & Hcv & Hkv).
   apply Ext_set_value; [exact G|]. intros w Hw. rewrite Hv in Hw. inversion Hw; subst.
-  apply same_class_cat; [congruence|rewrite Hcv; apply cat_of_not_normal].
+  eapply set_same_key; eauto.
 Qed.
 
 Lemma Ext_cons st b : Good st -> Ext st {| store := store st; stamps := stamps st; free := free st; cons := b |}.
@@ -939,7 +1015,7 @@ Proof.
   - apply Ext_m_unwrap; exact G.
   - apply Ext_m_clone; exact G.
   - apply Ext_on_element; [exact G|]. intros He. apply Ext_set_value; [exact G|]. intros v Hv.
-    unfold is_type in He. rewrite Hv in He. destruct v; try discriminate. repeat split.
+    unfold is_type in He. rewrite Hv in He. destruct v; try discriminate. apply normal_update; [repeat split|reflexivity].
   - apply Ext_on_element; [exact G|]. intros He. apply Ext_map_insert; auto.
   - apply Ext_on_element; [exact G|]. intros He. apply Ext_map_remove; exact G.
   - apply Ext_on_element; [exact G|]. intros He. apply Ext_map_insert; auto.
@@ -951,7 +1027,7 @@ Proof.
     destruct (map_get_node st KAttr e name); [apply Ext_refl; exact G|apply Ext_map_insert; auto].
   - apply Ext_on_element; [exact G|]. intros He.
     destruct (map_get_node st KAttr e name) as [n|] eqn:Eg; [|apply Ext_map_insert; auto].
-    pose proof (Ext_set_mapped st KAttr e name (VAttribute name v) G eq_refl) as X. rewrite Eg in X. exact X.
+    pose proof (Ext_set_mapped st KAttr e name (VAttribute name v) G eq_refl eq_refl) as X. rewrite Eg in X. exact X.
   - apply Ext_on_element; [exact G|]. intros He. apply Ext_map_remove; exact G.
   - apply Ext_on_element; [exact G|]. intros He. apply (Ext_set_mapped st KNs); auto.
   - apply Ext_on_element; [exact G|]. intros He.
@@ -959,10 +1035,11 @@ Proof.
   - cbn [fst]. destruct (is_type st n TText) eqn:Ht; [apply Ext_set_text; assumption|apply Ext_refl; exact G].
   - destruct (is_type st n TComment) eqn:Ht; [|apply Ext_refl; exact G].
     destruct (has_double_dash s); cbn [fst]; [apply Ext_refl; exact G|].
-    apply Ext_set_value; [exact G|]. intros v Hv. unfold is_type in Ht. rewrite Hv in Ht. destruct v; try discriminate. repeat split.
-  - cbn [fst]. apply Ext_set_value; [exact G|]. intros v _. destruct v; repeat split.
-  - cbn [fst]. apply Ext_set_value; [exact G|]. intros v _. destruct v; repeat split.
-  - cbn [fst]. apply Ext_set_value; [exact G|]. intros v _. destruct v; repeat split.
+    apply Ext_set_value; [exact G|]. intros v Hv. unfold is_type in Ht. rewrite Hv in Ht. destruct v; try discriminate.
+    apply normal_update; [repeat split|reflexivity].
+  - cbn [fst]. apply Ext_set_value; [exact G|]. intros v _. destruct v; (split; [repeat split|split; auto]).
+  - cbn [fst]. apply Ext_set_value; [exact G|]. intros v _. destruct v; (split; [repeat split|split; auto]).
+  - cbn [fst]. apply Ext_set_value; [exact G|]. intros v _. destruct v; (split; [repeat split|split; auto]).
   - apply Ext_m_text_content_mut; exact G.
   - cbn [fst]. apply Ext_cons; exact G.
   - destruct (is_type st e TElement); cbn [negb]; [|apply Ext_refl; exact G].
